@@ -94,7 +94,12 @@ partial def runDecs (mc : MCfg) (hook : Hook) (st : DState) (inp : Bytes) (acc :
   match decode mc hook st inp with
   | (.ok v, st', rest) =>
     runDecs mc hook st' rest (s!"OK {renderResolved st' v} {inp.length - rest.length}" :: acc) (n - 1)
-  | (.error e, _, _) => " | ".intercalate (s!"ERR {classOf e}" :: acc).reverse
+  | (.error e, st', rest) =>
+    -- after an end-of-input error the stream is over; after any other error the next call goes on where
+    -- this one stopped (how far that is comparable with the implementation is the caller's business)
+    if e == .eof || e == .unexpectedEOF || (match e with | .panic _ => true | _ => false) then
+      " | ".intercalate (s!"ERR {classOf e}" :: acc).reverse
+    else runDecs mc hook st' rest (s!"ERR {classOf e}" :: acc) (n - 1)
 
 /-- One letter per cut position k = 0 … len-1: the outcome of decoding the first k bytes. -/
 def cutLetter (r : M GoVal × DState × Bytes) : Char :=
